@@ -235,7 +235,8 @@ def gen_cases(ctx):
                 ops.append({"op": "upgrade", "drop": r.sample(list(D), r.randint(0, 4))})
         yield {"kind": "hist", "ops": ops}
     for _ in range(20 if not ctx.thorough else 100):
-        yield {"kind": "lock", "key": r.choice(keys + ["brand_new_key", "plot_new", ""]), "value": r.choice([1, True, "x", 2.5])}
+        yield {"kind": "lock", "key": r.choice([r.choice(keys), r.choice(["brand_new_key", "plot_new", "Plot_split", "plot_split ", "x"])]),
+               "value": r.choice([1, True, "x", 2.5])}
     for _ in range(30 if not ctx.thorough else 200):
         yield {"kind": "mergecfg", "app": r.choice(["ape", "rpe", "traj"]), "config": dict(
             list(rand_other(r, keys).items()) + [(r.choice(["align", "plot_mode", "t_offset", "downsample", "new_arg"]),
